@@ -155,7 +155,9 @@ def finish(res, tier, t0, level="other", explanation="", trusted_base=(), assump
         for o in violations:
             sg = _site_signature("%s|%s" % (o.rule, o.key))
             if sg and stale_rows.get(sg):
-                k = stale_rows[sg].pop(0)
+                # one stale row excuses every relocated finding with its signature (a helper inlined into several callers
+                # duplicates the site); rows are consumed only to keep the pairing stable in the report
+                k = stale_rows[sg][0] if len(stale_rows[sg]) == 1 else stale_rows[sg].pop(0)
                 known_hit.append((o, k))
                 relocated.append((o, k))
             else:
